@@ -114,6 +114,8 @@ def spec_task_edges(spec):
         for a in t.get("after", []):
             if a != t["id"]:
                 edges.add((a, t["id"]))
+        for a in t.get("mem_in", []):          # optional: consumes the in-memory product of task a
+            edges.add((a, t["id"]))
     return edges
 
 
